@@ -203,6 +203,13 @@ def target_init():
             if isinstance(s, ast.If) and "frequencies[-1]" in ast.unparse(s.test):
                 start = idx
         if start is None:
+            # the ordering step may have been moved into a helper: start after the leading validation / normalisation `if`s
+            k = 0
+            while k < len(body) and isinstance(body[k], ast.If) and any(w in ast.unparse(body[k].test) for w in ("isinstance(", "_is_", ".shape", " is None")):
+                k += 1
+            if 0 < k < len(body):
+                start = k
+        if start is None:
             sess.unsupported("ordering branch of DataSet.__init__ not found", fn.lineno)
             return
         sess.abstracted.append("DataSet.__init__: validation prologue (type/shape/uniqueness checks raising TypeError/ValueError) before the ordering branch")
